@@ -11,8 +11,8 @@ Definition word := str.
 Definition wlen (w : word) : Z := len w.
 
 (* ---- markdown_escape_word ----
-   _md_numeral_pat  = ^[0-9]+[.)]$      _md_specials_pat = a run of [-*+_=], or > followed by anything,
-   or a run of #, or a word starting with three backticks or three tildes (DOTALL)
+   _md_numeral_pat  = ^[0-9]+[.)]$      _md_specials_pat = a run of one of - = * _, or a single +, or > followed by anything,
+   or a run of #, or three or more backticks followed by no further backtick, or a word starting with three tildes (DOTALL)
    used with .match(); `$` also matches before one final "\n". *)
 Definition is_dot_paren (c : N) : bool := (N.eqb c 46) || (N.eqb c 41).
 
@@ -27,10 +27,11 @@ Definition specials_core (w : str) : bool :=
   match w with
   | [] => false
   | c :: _ =>
-      forallb is_rule_char w
+      forallb (N.eqb 45) w || forallb (N.eqb 61) w || forallb (N.eqb 42) w || forallb (N.eqb 95) w   (* -+ =+ [*]+ _+ *)
+      || str_eqb w [43%N]                             (* + *)
       || N.eqb c 62                                   (* >.* *)
       || forallb (N.eqb 35) w                         (* #+ *)
-      || startswith w [96; 96; 96]%N                  (* ```.* *)
+      || (Nat.leb 3 (run_len 96 w) && negb (existsb (N.eqb 96) (skipn (run_len 96 w) w)))   (* three or more backticks, then no further backtick *)
       || startswith w [126; 126; 126]%N               (* ~~~.* *)
   end.
 (* `$`: end of string, or just before a final newline *)
@@ -43,7 +44,9 @@ Definition escape_word (w : word) : word :=
     | c :: r => rev r ++ [bsl; c]
     | [] => w
     end
-  else if dollar specials_core w then bsl :: w
+  else if dollar specials_core w then
+    if forallb (fun c => N.eqb c 42 || N.eqb c 95) w then flat_map (fun c => [bsl; c]) w   (* a run of * or _: each character escaped *)
+    else bsl :: w
   else w.
 
 (* ---- the greedy fill loop of wrap_paragraph_lines, as a recursion over the words.
